@@ -361,6 +361,28 @@ func (m *c19Model) bindScrollSource(before []byte) {
 	}
 }
 
+// expectLogo: drawing a logo of lw x lh pixels changes exactly the pixels of its rectangle at the top of the
+// framebuffer (left aligned, centred with the odd pixel on the right, or right aligned), each to the colour of
+// its palette entry, which the console maps to the last len(logo palette) entries of its own palette.
+func (m *c19Model) expectLogo(data []uint8, lw, lh int64, align int, palLen int) {
+	m.reset()
+	g := &m.g
+	var x0 int64
+	switch align {
+	case 1: // centre
+		x0 = (g.width - lw) >> 1
+	case 2: // right
+		x0 = g.width - lw
+	}
+	off := uint8(256 - palLen)
+	for ly := int64(0); ly < lh; ly++ {
+		for lx := int64(0); lx < lw; lx++ {
+			v, mk := m.pack(data[ly*lw+lx] + off)
+			m.setPixel(x0+lx, ly, v, mk)
+		}
+	}
+}
+
 type c19Mismatch struct {
 	count    int
 	first    int
